@@ -98,15 +98,13 @@ def memoRun {P F J : Type} [DecidableEq P] (fn : P → F) (jac : P → J) : Memo
 section
 variable {α : Type} [Add α] [Sub α] [Mul α] [Div α] [NatCast α]
 
-/-- `_calculate_finite_derivatives`: `Σ_k (two-sided quotient of f in argument k) · (inner derivative of argument k)`;
-    `args` = `(value, diff, eps)` per argument, `vals` = all values -/
-def userCallNDiffAux (f : List α → α) (vals : List α) : Nat → List (α × α × α) → α → α
-  | _, [], acc => acc
-  | k, (v, d, eps) :: rest, acc =>
-    userCallNDiffAux f vals (k + 1) rest (acc + centralDiff (fun y => f (vals.set k y)) v eps * d)
-
-def userCallNDiff (f : List α → α) (args : List (α × α × α)) (zero : α) : α :=
-  userCallNDiffAux f (args.map (·.1)) 0 args zero
+/-- `_calculate_finite_derivatives` for any number of arguments: `Σ_k (two-sided quotient of f in argument k, the other arguments at
+    their values) · (inner derivative of argument k)`; `args` = `(value, diff, eps)` per argument. Structural form: the first argument is
+    perturbed with the remaining ones at their values, then the rule continues with the first argument fixed at its value -/
+def userCallNDiff (f : List α → α) : List (α × α × α) → α → α
+  | [], zero => zero
+  | (v, d, eps) :: rest, zero =>
+    centralDiff (fun y => f (y :: rest.map (·.1))) v eps * d + userCallNDiff (fun tail => f (v :: tail)) rest zero
 
 end
 
